@@ -122,3 +122,21 @@ Qed.
 Theorem dof_both_is_smaller n_rdm n_cond :
   (dof_of BBoth n_rdm n_cond <= dof_of BRdm n_rdm n_cond)%nat /\ (dof_of BBoth n_rdm n_cond <= dof_of BPattern n_rdm n_cond)%nat.
 Proof. unfold dof_of. lia. Qed.
+
+(* the variance of a difference of two models, read off the covariance across resamples, is the sample variance of the
+   per-resample differences and therefore never negative *)
+Theorem cov1_contrast_is_variance_of_difference x y : length x = length y -> x <> [] ->
+  cov1 ROps x x + cov1 ROps y y - 2 * cov1 ROps x y = cov1 ROps (rvsub x y) (rvsub x y).
+Proof.
+  intros Hl Hne. unfold cov1. rsimp2. rewrite center_vsub by assumption. rewrite vsub_length by exact Hl. rewrite <- Hl.
+  pose proof (gram_eq (center ROps x) (center ROps y)) as G. unfold sqdist, sqnorm in G.
+  rewrite <- G by (rewrite !center_length; exact Hl). unfold Rdiv. ring.
+Qed.
+
+Theorem cov1_contrast_nonneg x y : length x = length y -> (2 <= length x)%nat ->
+  0 <= cov1 ROps x x + cov1 ROps y y - 2 * cov1 ROps x y.
+Proof.
+  intros Hl Hn. assert (Hne : x <> []) by (intros E; subst; cbn in Hn; lia).
+  rewrite cov1_contrast_is_variance_of_difference by assumption.
+  apply cov1_variance_nonneg. rewrite vsub_length by exact Hl. exact Hn.
+Qed.
